@@ -78,7 +78,13 @@ def gen_collection(rng):
 
 def impl_align(fo, series, step):
     """get_series_time_offsets + the re-origin of recession.py (top level), as exact-friendly dicts"""
-    idx, offs, mapping = fo.get_series_time_offsets([(np.array(t), np.array(h)) for t, h in series], step)
+    arg = [(np.array(t), np.array(h)) for t, h in series]
+    snap = common.snapshot(arg)
+    idx, offs, mapping = fo.get_series_time_offsets(arg, step)
+    if not common.same_as_snapshot(arg, snap):
+        raise AssertionError("the caller's series were modified by get_series_time_offsets")
+    if len(idx) != len(offs):
+        raise AssertionError("interval indices and offsets of different lengths")
     idx = [int(i) for i in idx]
     top = max(mapping)
     z = float(np.mean([offs[idx.index(s)] + tm for s, tm in mapping[top]]))
@@ -94,6 +100,11 @@ def run(ctx):
     rng = ctx.rng
     run_relabel(ctx, 200 if ctx.tier == "quick" else 5000)
     run_components(ctx, 300 if ctx.tier == "quick" else 10000)
+    # the machine's memory is one more arbitrary circumstance: with too little of it for the dense design matrix the
+    # command may refuse, it may not align the same intervals differently (stationarity checked exactly, as in C05)
+    from . import c05
+    c05.capped_case(ctx, "alignment stored with the address space capped below the design matrix: refused, or the same minimiser",
+                    oracle="c08Holds")
     ob_model = "kept intervals and aligned curve of get_series_time_offsets = model assemble over Rat"
     ob_meta = "same master curve and relative alignment under reordering / axis shifts / change of the internal zero"
     for _ in range(n):
